@@ -1,7 +1,7 @@
 #!/usr/bin/env python3
 """Confirm a seeded change and run our checks against it.
 
-  tools/eval_seeded.py <dir with patch.diff + demo.py> <property> [<more properties>] [--cases N] [--tier quick]
+  tools/eval_seeded.py <dir with patch.diff + demo.py> <property> [<more properties>] [--cases N] [--base <commit>]
 
 1. scratch git worktree of /repo HEAD under $TMPDIR; 2. demo on the clean tree must exit 0; 3. apply patch; the 68
 baseline tests must still pass; demo must exit non-zero; 4. run `./check <property>` with SNAX_REPO pointing at the
@@ -18,12 +18,16 @@ def main():
     cases = None
     if "--cases" in args:
         i = args.index("--cases"); cases = args[i + 1]; del args[i:i + 2]
+    base = "HEAD"
+    if "--base" in args:
+        i = args.index("--base"); base = args[i + 1]; del args[i:i + 2]
     d, props = os.path.abspath(args[0]), args[1:]
     tmp = tempfile.mkdtemp(prefix="seedeval_")
     wt = os.path.join(tmp, "wt")
     res = {"dir": d, "properties": props}
     try:
-        sh(["git", "-C", "/repo", "worktree", "add", "-q", "--detach", wt, "HEAD"])
+        sh(["git", "-C", "/repo", "worktree", "add", "-q", "--detach", wt, base])
+        res["base"] = base
         env = dict(os.environ, SNAX_REPO=wt, PYTHONPATH=os.path.join(ROOT, "seeded") + ":/tmp/agent_env")
         demo = os.path.join(d, "demo.py")
         r0 = sh(["/venv/bin/python", demo], env=env, cwd=d, timeout=600)
